@@ -574,6 +574,30 @@ def m_map_ctor(ex, st, callee, args):
     raise Inconclusive("map on %r" % (v,))
 
 
+def m_opt_as_ref(ex, st, callee, args):
+    """Option::<T>::as_ref / as_mut (&Option<T> -> Option<&T>) and as_deref (additionally through Cow / Box / String)"""
+    r = args[0]
+    if not isinstance(r, Ref):
+        raise Inconclusive("%s on non-reference" % callee)
+    o = ex.read(st, r.cell, r.path)
+    while isinstance(o, Ref):
+        r = o
+        o = ex.read(st, r.cell, r.path)
+    if not (isinstance(o, Adt) and o.ty == "Option"):
+        raise Inconclusive("%s on %r" % (callee, o))
+    if o.variant == "None":
+        return [(None, NONE)]
+    inner_ref = Ref(r.cell, r.path + (0,))
+    if "as_deref" in callee:
+        inner = o.fields[0]
+        if isinstance(inner, Adt) and inner.ty == "Cow":
+            return [(None, some(inner.fields[0] if inner.variant == "Borrowed" else Ref(r.cell, r.path + (0, 0))))]
+        if isinstance(inner, Opaque):
+            return [(None, some(inner))]
+        raise Inconclusive("as_deref through %r" % (inner,))
+    return [(None, some(inner_ref))]
+
+
 # ------------------------------------------------------------------ Cow
 def m_cow_as_ref(ex, st, callee, args):
     r = args[0]
@@ -603,6 +627,7 @@ def base_models():
     m = Models()
     m.add(r"^<Cow<.*> as (AsRef<.*>|Deref|Borrow<.*>)>::(as_ref|deref|borrow)$", m_cow_as_ref)
     m.add(r"^Cow::<.*>::into_owned$", m_cow_into_owned)
+    m.add(r"^(Option|std::option::Option)::<.*>::(as_ref|as_mut|as_deref|as_deref_mut)$", m_opt_as_ref)
     m.add(r"^(Option|Result|std::result::Result|std::option::Option)::<.*>::map::<.*, fn\(.*\) -> .* \{.*\}>$", m_map_ctor)
     m.add(r"^Vec::<.*>::pop$", m_vec_pop)
     m.add(r"^Vec::<.*>::push$", m_vec_push)
